@@ -129,7 +129,9 @@ func main() {
 		for fi, flt := range filters {
 			for _, recursive := range []bool{true, false} {
 				caseNo++
-				base := filepath.Join(scratch, fmt.Sprintf("rt%d", caseNo))
+				// the same few destination paths are used over and over (each wiped after its case): a round trip must not
+				// depend on what an earlier extraction into the same path left behind in the process
+				base := filepath.Join(scratch, fmt.Sprintf("rt%d", caseNo%3))
 				src, dst, zf := filepath.Join(base, "src"), filepath.Join(base, "out", "dst"), filepath.Join(base, "a.zip")
 				must(os.MkdirAll(src, 0o755))
 				must(os.MkdirAll(filepath.Join(src, "emptydir"), 0o755))
@@ -356,6 +358,6 @@ func main() {
 	run.Assume = []string{"runs on a real scratch directory created with mktemp and removed afterwards; symlinks inside archives are not generated (archive/zip entries are written as regular files)"}
 	run.Finish(ev.Coverage{
 		"evaluations": evals, "distinct_nontrivial": nontriv, "samples": samples.List, "exhaustive": true, "archives": archNo, "roundtrip_cases": caseNo,
-		"rule": "round trip: subsets of a 10-path universe (root file, empty file, binary content, d/f, d/e/f, names with space/dots/unicode/leading dot, a *.skip file; plus an empty directory) x 5 filters x recursive flag, ZipFolder -> UnzipToFolder -> extracted tree must equal exactly the selected files byte for byte (thorough: all 1024 subsets); confinement: every archive of <= 2 (thorough 3) distinct entries from 17 adversarial names ('..' segments, absolute path, '..', './a', directory entry, file/dir clashes, backslash), snapshot (path, hash) of the scratch tree three levels above the destination before/after: only paths under the destination may differ whatever UnzipToFolder returns. non-trivial = round trips selecting >= 1 file, archives with a '..' entry",
+		"rule": "round trip: subsets of a 10-path universe (root file, empty file, binary content, d/f, d/e/f, names with space/dots/unicode/leading dot, a *.skip file; plus an empty directory) x 5 filters x recursive flag, ZipFolder -> UnzipToFolder -> extracted tree must equal exactly the selected files byte for byte (thorough: all 1024 subsets); the cases re-use three destination paths that are wiped in between; confinement: every archive of <= 2 (thorough 3) distinct entries from 17 adversarial names ('..' segments, absolute path, '..', './a', directory entry, file/dir clashes, backslash), snapshot (path, hash) of the scratch tree three levels above the destination before/after: only paths under the destination may differ whatever UnzipToFolder returns. non-trivial = round trips selecting >= 1 file, archives with a '..' entry",
 	})
 }
